@@ -595,8 +595,51 @@ impl DeriveShape for Expression {
             Expression::Binary(def) => {
                 let left_shape = def.left.derive_shape(symbol_table);
                 if def.kind == BinaryExprType::DOT {
-                    let shape =
+                    let mut shape =
                         derive_dot_expression(&def.pos, &left_shape, &def.right, symbol_table);
+                    // A symbol whose tuple shape consists of nothing but
+                    // unconstrained fields got that shape from the fields we
+                    // saw selected from it so far (see the inference below).
+                    // It is not the complete tuple. Selecting another field
+                    // adds to what we know instead of being an error.
+                    if let (
+                        Shape::TypeErr(_, _),
+                        Shape::Tuple(known),
+                        Expression::Simple(Value::Symbol(sym)),
+                        Expression::Simple(Value::Symbol(field))
+                        | Expression::Simple(Value::Str(field)),
+                    ) = (&shape, &left_shape, def.left.as_ref(), def.right.as_ref())
+                    {
+                        let any = |pos: &Position| {
+                            Shape::Narrowed(NarrowedShape {
+                                pos: pos.clone(),
+                                types: NarrowingShape::Any,
+                            })
+                        };
+                        let inferred_from_use = !known.val.is_empty()
+                            && known.val.iter().all(|(_, s)| {
+                                matches!(
+                                    s,
+                                    Shape::Narrowed(NarrowedShape {
+                                        types: NarrowingShape::Any,
+                                        ..
+                                    })
+                                )
+                            });
+                        if inferred_from_use && !known.val.iter().any(|(n, _)| n.val == field.val)
+                        {
+                            let mut fields = known.val.clone();
+                            fields.push((
+                                PositionedItem::new(field.val.clone(), field.pos.clone()),
+                                any(&field.pos),
+                            ));
+                            symbol_table.insert(
+                                sym.val.clone(),
+                                Shape::Tuple(PositionedItem::new(fields, known.pos.clone())),
+                            );
+                            shape = any(&field.pos);
+                        }
+                    }
                     // Update the symbol table with the inferred left shape
                     if let Expression::Simple(Value::Symbol(pi)) = def.left.as_ref() {
                         if let Shape::TypeErr(_, _) = &shape {
